@@ -827,15 +827,19 @@ mod response {
             cx: &mut Context<'_>,
             buf: &mut ReadBuf<'_>,
         ) -> Poll<io::Result<()>> {
+            // The body ends after `content_length` bytes:
+            // what follows, in `bytes` or on the connection, is the next request.
+            let left = self.content_length.saturating_sub(self.offset);
+            if left == 0 {
+                return Poll::Ready(Ok(()));
+            }
             if self.offset < self.bytes.len() {
-                let remaining = buf.remaining();
-                if self.bytes.len() - self.offset > remaining {
-                    buf.put_slice(&self.bytes[self.offset..self.offset + remaining]);
-                    self.offset += remaining;
-                } else {
-                    buf.put_slice(&self.bytes[self.offset..]);
-                    self.offset = self.bytes.len();
-                }
+                let len = buf
+                    .remaining()
+                    .min(self.bytes.len() - self.offset)
+                    .min(left);
+                buf.put_slice(&self.bytes[self.offset..self.offset + len]);
+                self.offset += len;
                 cx.waker().wake_by_ref();
                 Poll::Ready(Ok(()))
             } else {
@@ -844,16 +848,17 @@ mod response {
                     Poll::Pending => return Poll::Pending,
                     Poll::Ready(r) => r,
                 };
-                let size = buf.filled().len();
-                let result = unsafe { Pin::new_unchecked(&mut *reader).poll_read(cx, buf) };
+                let mut window = buf.take(left);
+                let result = unsafe { Pin::new_unchecked(&mut *reader).poll_read(cx, &mut window) };
                 drop(reader);
                 drop(lock);
-                let difference = buf.filled().len() - size;
+                let difference = window.filled().len();
+                // SAFETY: `window` is the start of the unfilled part of `buf`,
+                // and the reader filled `difference` bytes of it.
+                unsafe { buf.assume_init(difference) };
+                buf.advance(difference);
                 self.offset += difference;
                 self.unread = self.unread.saturating_sub(difference);
-                if self.offset == self.content_length {
-                    return Poll::Ready(Ok(()));
-                }
                 result
             }
         }
